@@ -10,6 +10,8 @@ import re
 RESTRICTED = ('return', 'break', 'continue', 'throw')
 IDENT = re.compile(r'^[A-Za-z_$][\w$]*$')
 HEADER_KW = ('if', 'for', 'while', 'with')
+BINARY_OPS = ('==', '!=', '===', '!==', '<', '>', '<=', '>=', '+', '-', '*', '/', '%', '<<', '>>', '>>>', '&', '|', '^', '&&', '||',
+              'instanceof', '?', ',', '=', '+=', '-=', '*=', '/=', '%=', '<<=', '>>=', '>>>=', '&=', '|=', '^=')
 SUFFIX_AFTER_BRACE = ('(', '.', '[', '/', '/=', '*', '%', '+', '-', '<', '>', '=', '==', '&', '|', '^', '?', ',', 'in',
                       'instanceof', '&&', '||', '++', '--', '<<', '>>', '>>>', '<=', '>=', '!=', '===', '!==')
 
@@ -57,9 +59,23 @@ def classes(tokens):
         if t in RESTRICTED and nxt is not None and is_comment(nxt):
             out.add('KF-04d')
         if is_comment(t):
-            # comments matter to calmjs where its look-behind inspects the previous raw token
-            if (prv is not None and (is_lt(prv) or prv == ')' or prv in HEADER_KW)) or (nxt is not None and is_lt(nxt)) \
-                    or starts_slash(nsig) or '\n' in t or '\r' in t or ' ' in t or ' ' in t:
+            # comments are raw tokens for calmjs's look-behind (`prev_token`): a comment DIRECTLY before a significant token
+            # hides a line terminator that precedes it (or that it contains) from the ASI test, and a comment directly before a
+            # `/` disturbs the regex/division decision.  A comment followed by a line terminator is harmless (the look-behind
+            # then sees the terminator), except after a restricted keyword (KF-04d, above).
+            directly_before_token = nxt is not None and not is_lt(nxt) and not is_comment(nxt)
+            if directly_before_token:
+                k = i
+                lt_seen = False
+                while k >= 0 and (is_lt(tokens[k]) or is_comment(tokens[k])):
+                    if is_lt(tokens[k]) or any(c in tokens[k] for c in '\n\r\u2028\u2029'):
+                        lt_seen = True
+                    k -= 1
+                if lt_seen and k >= 0:
+                    out.add('KF-04a')
+                if starts_slash(nxt):
+                    out.add('KF-04a')
+            if prv is not None and prv in HEADER_KW:
                 out.add('KF-04a')
         if t in ('/', '/=') and nxt is not None and is_lt(nxt):
             out.add('KF-03f')
@@ -102,6 +118,27 @@ def classes(tokens):
                 k += 1
             if seg_has_in and semis >= 1:
                 out.add('KF-03h')
+            # the same root cause in a for-in header: `for (var x = a == b in c)` - the initialiser's right operand swallows
+            # the `in` that belongs to the header
+            if semis == 0:
+                depth, k, state = 0, i + 1, 0      # state 1 after `=`, 2 after a binary operator behind it
+                while k < len(sig):
+                    x = sig[k]
+                    if x in '([{':
+                        depth += 1
+                    elif x in ')]}':
+                        depth -= 1
+                        if depth == 0:
+                            break
+                    elif depth == 1:
+                        if x == '=' and state == 0:
+                            state = 1
+                        elif state == 1 and x in BINARY_OPS:
+                            state = 2
+                        elif x == 'in' and state == 2:
+                            out.add('KF-03h')
+                            break
+                    k += 1
     # a `/` first on a line after the identifier of `continue L` / `break L` / `var x` (no initialiser): the
     # grammar forbids a division there, so ES5 inserts a semicolon and reads a regex; calmjs has lexed DIV already
     for i, t in enumerate(tokens):
@@ -116,12 +153,36 @@ def classes(tokens):
                 before = tokens[q] if q >= 0 else None
                 if before in ('continue', 'break', 'var') or (before == ',' and 'var' in sig):
                     out.add('KF-05f')
-    if 'with' in sig:
-        for i in range(len(sig) - 1):
-            if sig[i] == ')' and starts_slash(sig[i + 1]):
+    # a call of a property NAMED if/for/while: calmjs takes its `(` for a statement header, so a `/` after the `)` is a regex
+    for i, t in enumerate(sig):
+        if t in ('if', 'for', 'while') and i > 0 and sig[i - 1] == '.' and i + 1 < len(sig) and sig[i + 1] == '(':
+            depth, k = 0, i + 1
+            while k < len(sig):
+                if sig[k] == '(':
+                    depth += 1
+                elif sig[k] == ')':
+                    depth -= 1
+                    if depth == 0:
+                        break
+                k += 1
+            if k + 1 < len(sig) and starts_slash(sig[k + 1]):
+                out.add('KF-05g')
+    # the `)` closing the header of a `with` STATEMENT (not a property named `with`) directly followed by a `/`
+    for i, t in enumerate(sig):
+        if t == 'with' and (i == 0 or sig[i - 1] != '.') and i + 1 < len(sig) and sig[i + 1] == '(':
+            depth, k = 0, i + 1
+            while k < len(sig):
+                if sig[k] == '(':
+                    depth += 1
+                elif sig[k] == ')':
+                    depth -= 1
+                    if depth == 0:
+                        break
+                k += 1
+            if k + 1 < len(sig) and starts_slash(sig[k + 1]):
                 out.add('KF-05a')
     for i in range(len(sig) - 2):
-        if sig[i] == '.' and IDENT.match(sig[i + 1] or '') and sig[i + 2] in ('/', '/='):
+        if sig[i] == '.' and IDENT.match(sig[i + 1] or '') and starts_slash(sig[i + 2]):
             out.add('KF-05c')
     # a function at the start of a statement whose `}` is followed by something that continues an expression
     fstart = any(t == 'function' and (i == 0 or sig[i - 1] in (';', '{', '}', ')', ':', 'else', 'do'))
